@@ -36,10 +36,7 @@ Modelling decisions for (c)
 Proofs: Proofs/C04Tree.lean (codec, stable sort), C04TreeList / C04TreeInsert / C04TreeDelete /
 C04TreeApply (refinement of `specApply`, order and shape), C04TreeOcc (occupancy, no `stuck`).
 
-Driver (command word `c04`, stateful; see `Drv` at the end): driven by the P1 protocol.
-The harness sends commits, stage steps and iterator calls; the model computes the commit
-overlay (tagged last writes of queued commits, `copy_to_overlay` / `clean_overlay`), the
-backend (`toList` of the model tree after the processed commits) and the record id itself.
+Driver (command word `c04`): the executable pipeline `Drv` is in Pdb/Model/BTreePipe.lean.
 -/
 import Pdb.Model.BTreeIter
 
@@ -396,7 +393,7 @@ def shape : Nat → Node V → String
   | 0, n => "L" ++ toString n.seps.length
   | d + 1, n => "N(" ++ ",".intercalate (n.children.map (shape d)) ++ ")"
 
-/-! ## driver state (P1-driven) -/
+/-! ## text helpers of the driver (the pipeline itself: Pdb/Model/BTreePipe.lean) -/
 
 def hexDigit (c : Char) : Option Nat :=
   if '0' ≤ c ∧ c ≤ '9' then some (c.toNat - '0'.toNat)
@@ -418,20 +415,16 @@ def hexChar (d : Nat) : Char := if d < 10 then Char.ofNat (48 + d) else Char.ofN
 def hex (bs : List Nat) : String :=
   if bs.isEmpty then "-" else String.ofList (bs.flatMap (fun b => [hexChar (b / 16), hexChar (b % 16)]))
 
-structure Drv where
-  variant : Variant
-  tree : Tree String
-  be : List (Key × String)          -- cached `tree.toList` (the backend of the iterator)
-  stuck : Bool
-  rid : Nat
-  nextId : Nat
-  overlay : List (Key × (Nat × Option String))      -- BTreeCommitOverlay: key -> (record id, value)
-  queue : List (Nat × List (Op String))
-  it : IterSt String
+def showOut : Out String → String
+  | .unit => "ok"
+  | .item none => "none"
+  | .item (some (k, v)) => hex k ++ " " ++ v
+  | .outOfFuel => "err:model-out-of-fuel"
 
-def Drv.init (v : Variant) : Drv :=
-  { variant := v, tree := Tree.empty, be := [], stuck := false, rid := 0, nextId := 0, overlay := [],
-    queue := [], it := IterSt.new 0 }
+def showReadSep : ReadSep → String
+  | .none => "none"
+  | .corrupt => "err:Corruption"
+  | .some k v rest => s!"some {k.length} {v} {rest.length}"
 
 def parseOp (w : String) : Option (Op String) :=
   match w.splitOn ":" with
@@ -439,105 +432,15 @@ def parseOp (w : String) : Option (Op String) :=
   | ["del", k] => (unhex k).map .del
   | _ => none
 
-/-- `BTreeChangeSet::copy_to_overlay` -/
-def Drv.commit (s : Drv) (ops : List (Op String)) : Drv :=
-  let id := s.nextId + 1
-  let ov := ops.foldl (fun ov op => match op with
-                                    | .set k v => put ov k (id, some v)
-                                    | .del k => put ov k (id, none)) s.overlay
-  { s with nextId := id, overlay := ov, queue := s.queue ++ [(id, ops)] }
-
-/-- `process_commits` for one commit: `write_plan`, `end_record`, `clean_overlay`. -/
-def Drv.process (s : Drv) : Drv :=
-  match s.queue with
-  | [] => s
-  | (id, ops) :: q =>
-    let be := s.be
-    let eff := dedupLast (stableSort ops)
-    let wrote := eff.any (fun op => match op with
-                                    | .set _ _ => true
-                                    | .del k => (lookup be k).isSome)
-    let r := applyList s.tree eff
-    let ov := ops.foldl (fun ov op =>
-      match lookup ov op.key with
-      | some (i, _) => if i = id then del ov op.key else ov
-      | none => ov) s.overlay
-    { s with queue := q, tree := r.1, be := r.1.toList, stuck := s.stuck || !r.2,
-             rid := if wrote then id else s.rid, overlay := ov }
-
-def Drv.env (s : Drv) : Env String := { ov := s.overlay.map (fun e => (e.1, e.2.2)), rid := s.rid }
-
-def Drv.get (s : Drv) (k : Key) : Option String :=
-  match lookup s.overlay k with
-  | some (_, o) => o
-  | none => nodeGet s.tree.depth s.tree.root k
-
-def showOut : Out String → String
-  | .unit => "ok"
-  | .item none => "none"
-  | .item (some (k, v)) => hex k ++ " " ++ v
-  | .outOfFuel => "err:model-out-of-fuel"
-
-def Drv.call (s : Drv) (c : Call) : Drv × String :=
-  let be := s.be
-  let r := stepV s.variant (fun _ => be) s.it s.env c
-  ({ s with it := r.1 }, showOut r.2)
-
-def showReadSep : ReadSep → String
-  | .none => "none"
-  | .corrupt => "err:Corruption"
-  | .some k v rest => s!"some {k.length} {v} {rest.length}"
-
-def Drv.step (s : Drv) (ws : List String) : Drv × String :=
-  match ws with
-  | "commit" :: ops =>
-    (match ops.mapM parseOp with
-     | some ops => (s.commit ops, "ok")
-     | none => (s, "bad-op"))
-  | ["process"] => (s.process, "ok")
-  | ["flush"] => (s, "ok")
-  | ["enact"] => (s, "ok")
-  | ["clean"] => (s, "ok")
-  | ["get", k] =>
-    (match unhex k with
-     | some k => (s, match s.get k with
-                     | some v => "some " ++ v
-                     | none => "none")
-     | none => (s, "bad-op"))
-  | ["iter", "new"] => ({ s with it := IterSt.new s.rid }, "ok")
-  | ["iter", "seek", k] =>
-    (match unhex k with
-     | some k => s.call (.seek k)
-     | none => (s, "bad-op"))
-  | ["iter", "first"] => s.call .seekFirst
-  | ["iter", "last"] => s.call .seekLast
-  | ["iter", "next"] => s.call .next
-  | ["iter", "prev"] => s.call .prev
-  | ["tree"] =>
-    (s, s!"d={s.tree.depth} n={s.tree.toList.length} {shape s.tree.depth s.tree.root} " ++
-        (if s.stuck then "inv=stuck" else if treeInvB s.tree then "inv=ok" else "inv=bad"))
-  | ["sep", len, fill, addr] =>
-    -- separator codec on the key `fill^len`: header bytes, total length, decoded back
-    (match len.toNat?, fill.toNat?, addr.toNat? with
-     | some len, some fill, some addr =>
-       let key := List.replicate len fill
-       let enc := writeSeparator key addr
-       let back := match readSeparator enc with
-                   | .some k v rest => decide (k = key ∧ v = addr ∧ rest = [])
-                   | _ => false
-       (s, s!"{hex (enc.take (if len ≥ U8_MAX then 13 else 9))} {enc.length} " ++
-           (if back then "roundtrip" else "no-roundtrip"))
-     | _, _, _ => (s, "bad-op"))
-  | _ => (s, "bad-op")
-
-/-- Entry point for `Driver/Main.lean`: `c04 init [unpatched]` (re)creates the state. -/
-def driverStep (st : Option Drv) (ws : List String) : Option Drv × String :=
-  match ws with
-  | ["init"] => (some (Drv.init patched), "ok")
-  | ["init", "unpatched"] => (some (Drv.init unpatched), "ok")
-  | _ =>
-    match st with
-    | some s => let r := s.step ws; (some r.1, r.2)
-    | none => (none, "bad-op")
+/-- `c04 sep <len> <fill> <addr>`: separator codec on the key `fill^len`: header bytes, total
+    length, decoded back. -/
+def sepLine (len fill addr : Nat) : String :=
+  let key := List.replicate len fill
+  let enc := writeSeparator key addr
+  let back := match readSeparator enc with
+              | .some k v rest => decide (k = key ∧ v = addr ∧ rest = [])
+              | _ => false
+  s!"{hex (enc.take (if len ≥ U8_MAX then 13 else 9))} {enc.length} " ++
+    (if back then "roundtrip" else "no-roundtrip")
 
 end Pdb.C04
